@@ -9,8 +9,10 @@
     VSlone (incl. its attach/detach of every vgroup, which writes marked ones back), Vgetid / VSgetid, Vfind,
     Vfindclass, Vgetnext, Vgetvgroups.
     What is abstracted: the element store (a finite map ref -> bytes of the DFTAG_VG elements), the TBBT (a
-    table in key order), Vdata records (table ref -> name, class), vg->access (see VGraphSpec: edits need a handle
-    attached with "w"). *)
+    table in key order), Vdata records (table ref -> name, class).  The access mode is modelled as the code keeps
+    it: one [access] field per VGROUP shared by all handles (Vattach: MAX with the requested mode while nattach > 0,
+    overwritten when nattach = 0; every edit tests it); nattach of a vginstance is the number of handle slots that
+    name its ref. *)
 From Coq Require Import ZArith List Bool FMapPositive.
 Require Import H4.gen.Gen_VG H4.VGraphSpec.
 Import ListNotations.
@@ -35,39 +37,49 @@ Record VGROUP := mkVG {
   oref : Z; nvelt : Z; msize : Z; tag : list Z; ref : list Z;
   vgname : option bytes; vgclass : option bytes;
   extag : Z; exref : Z; flags : Z; nattrs : Z; alist : list pair;
-  version : Z; more : Z; marked : bool; new_vg : bool }.
+  version : Z; more : Z; marked : bool; new_vg : bool;
+  access : bool                         (* vg->access == 'w'; shared by all handles on the vgroup *) }.
 
 Definition set_arrays (g : VGROUP) (n m : Z) (t r : list Z) : VGROUP :=
   mkVG (oref g) n m t r (vgname g) (vgclass g) (extag g) (exref g) (flags g) (nattrs g) (alist g)
-       (version g) (more g) true (new_vg g).
+       (version g) (more g) true (new_vg g) (access g).
 Definition set_name (g : VGROUP) (s : option bytes) : VGROUP :=
   mkVG (oref g) (nvelt g) (msize g) (tag g) (ref g) s (vgclass g) (extag g) (exref g) (flags g) (nattrs g) (alist g)
-       (version g) (more g) true (new_vg g).
+       (version g) (more g) true (new_vg g) (access g).
 Definition set_class (g : VGROUP) (s : option bytes) : VGROUP :=
   mkVG (oref g) (nvelt g) (msize g) (tag g) (ref g) (vgname g) s (extag g) (exref g) (flags g) (nattrs g) (alist g)
-       (version g) (more g) true (new_vg g).
+       (version g) (more g) true (new_vg g) (access g).
 Definition set_saved (g : VGROUP) (v : Z) : VGROUP :=      (* after the write-back in Vdetach *)
   mkVG (oref g) (nvelt g) (msize g) (tag g) (ref g) (vgname g) (vgclass g) (extag g) (exref g) (flags g) (nattrs g)
-       (alist g) v (more g) false false.
+       (alist g) v (more g) false false (access g).
+(** Vattach of a vgroup nobody has attached: vg->access = mode; vg->marked = 0 *)
+Definition set_first_attach (g : VGROUP) (w : bool) : VGROUP :=
+  mkVG (oref g) (nvelt g) (msize g) (tag g) (ref g) (vgname g) (vgclass g) (extag g) (exref g) (flags g) (nattrs g)
+       (alist g) (version g) (more g) false (new_vg g) w.
+(** Vattach of an attached vgroup: vg->access = MAX(vg->access, mode) *)
+Definition set_access (g : VGROUP) (w : bool) : VGROUP :=
+  mkVG (oref g) (nvelt g) (msize g) (tag g) (ref g) (vgname g) (vgclass g) (extag g) (exref g) (flags g) (nattrs g)
+       (alist g) (version g) (more g) (marked g) (new_vg g) w.
 
 (** Vattach(f, -1, "w") *)
 Definition new_vgroup (r : Z) : VGROUP :=
   mkVG r 0 MAXNVELT (repeat 0 (Z.to_nat MAXNVELT)) (repeat 0 (Z.to_nat MAXNVELT)) None None 0 0 0 0 []
-       VSET_VERSION 0 true true.
+       VSET_VERSION 0 true true true.
 
 (** the member list an array pair stands for *)
 Definition members (g : VGROUP) : list pair :=
   combine (firstn (Z.to_nat (nvelt g)) (tag g)) (firstn (Z.to_nat (nvelt g)) (ref g)).
 
 (* ---- vinsertpair / Vaddtagref / Vinsert / Vdeletetagref -------------------------------------------- *)
-Definition vinsertpair (g : VGROUP) (t r : Z) : VGROUP * Z :=
+Definition vinsertpair (g : VGROUP) (t r : Z) : option (VGROUP * Z) :=
+  if 65535 <=? nvelt g then None else                        (* vg->nvelt >= UINT16_MAX: DFE_EXCEEDMAX *)
   let '(m, tg, rf) :=
     if msize g <=? nvelt g                                   (* (int)vg->nvelt >= vg->msize *)
     then let m := msize g * 2 in (m, agrow (tag g) m, agrow (ref g) m)
     else (msize g, tag g, ref g) in
   let i := Z.to_nat (nvelt g) in
   let n := w16 (nvelt g + 1) in                              (* uint16 nvelt++ *)
-  (set_arrays g n m (aset tg i t) (aset rf i r), n).
+  Some (set_arrays g n m (aset tg i t) (aset rf i r), n).
 
 (** first index in [i, i + fuel) whose cell matches *)
 Fixpoint scan (tg rf : list Z) (t r : Z) (i fuel : nat) : option nat :=
@@ -79,12 +91,12 @@ Fixpoint scan (tg rf : list Z) (t r : Z) (i fuel : nat) : option nat :=
 Fixpoint shift (a : list Z) (j fuel : nat) : list Z :=
   match fuel with O => a | S f => shift (aset a j (aget a (S j))) (S j) f end.
 
-Definition Vaddtagref (g : VGROUP) (t r : Z) : VGROUP * Z := vinsertpair g (w16 t) (w16 r).
+Definition Vaddtagref (g : VGROUP) (t r : Z) : option (VGROUP * Z) := vinsertpair g (w16 t) (w16 r).
 
 Definition Vinsert (g : VGROUP) (t r : Z) : option (VGROUP * Z) :=
   match scan (tag g) (ref g) t r 0 (Z.to_nat (nvelt g)) with
   | Some _ => None                                           (* DFE_DUPDD *)
-  | None => let '(g', n) := vinsertpair g t r in Some (g', n - 1)
+  | None => match vinsertpair g t r with Some (g', n) => Some (g', n - 1) | None => None end
   end.
 
 Definition Vdeletetagref (g : VGROUP) (t r : Z) : option VGROUP :=
@@ -134,7 +146,7 @@ Definition opt_bytes (o : option bytes) : bytes := match o with Some b => b | No
 (** the same operations as VGraphSpec.l_apply, performed on the arrays *)
 Definition m_apply (g : VGROUP) (o : mop) : VGROUP * mres :=
   match o with
-  | MAdd t r => let '(g', n) := Vaddtagref g t r in (g', MNum n)
+  | MAdd t r => match Vaddtagref g t r with Some (g', n) => (g', MNum n) | None => (g, MFail) end
   | MInsert t r => match Vinsert g (w16 t) (w16 r) with Some (g', i) => (g', MNum i) | None => (g, MFail) end
   | MDel t r => match Vdeletetagref g t r with Some g' => (g', MNum 0) | None => (g, MFail) end
   | MCount => (g, MNum (nvelt g))
@@ -220,7 +232,7 @@ Definition vunpackvg (r0 : Z) (buf : bytes) : option VGROUP :=
   match opt_name cl b6 with None => None | Some (cls, b7) =>
   match dec16 b7 with None => None | Some (xt, b8) =>
   match dec16 b8 with None => None | Some (xr, b9) =>
-  let mk fl na al := Some (mkVG r0 n m (agrow tg m) (agrow rf m) nm cls xt xr fl na al ver mor false false) in
+  let mk fl na al := Some (mkVG r0 n m (agrow tg m) (agrow rf m) nm cls xt xr fl na al ver mor false false false) in
   if ver =? VSET_NEW_VERSION then
     match dec32 b9 with None => None | Some (fl, b10) =>
       if Z.land fl VG_ATTR_SET =? 0 then mk fl 0 []
@@ -236,7 +248,8 @@ Record mstate := mkm {
   m_file : list (Z * bytes);            (* DFTAG_VG elements of the file: ref -> record *)
   m_vg   : list (Z * VGROUP);           (* vgtree: key order *)
   m_vs   : list (Z * vs);               (* vstree *)
-  m_hg   : list (Z * (Z * bool));       (* vgroup handles: slot -> (ref, "w") *)
+  m_hg   : list (Z * Z);                (* vgroup handles (atoms): slot -> ref of the shared vginstance;
+                                           nattach of a vginstance = number of slots naming its ref *)
   m_hs   : list (Z * Z) }.
 Definition minit : mstate := mkm [] [] [] [] [].
 
@@ -246,11 +259,15 @@ Definition tput {A} (k : Z) (v : A) (t : list (Z * A)) : list (Z * A) :=
 (** Vdetach's write-back: a marked vgroup is packed and stored under (DFTAG_VG, oref) *)
 Definition write_back (file : list (Z * bytes)) (g : VGROUP) : list (Z * bytes) * VGROUP :=
   if marked g then let '(ver, b) := vpackvg g in (tput (oref g) b file, set_saved g ver) else (file, g).
-Fixpoint flush_marked (file : list (Z * bytes)) (t : list (Z * VGROUP)) : list (Z * bytes) * list (Z * VGROUP) :=
+(** Vlone / VSlone attach every vgroup with "r" and detach it again: an attached one (nattach > 0) keeps its
+    access (MAX) and is written back when marked; an unattached one gets access 'r', marked 0 *)
+Fixpoint lone_visits (hg : list (Z * Z)) (file : list (Z * bytes)) (t : list (Z * VGROUP))
+  : list (Z * bytes) * list (Z * VGROUP) :=
   match t with
   | [] => (file, [])
-  | (k, g) :: r => let '(f1, g1) := write_back file g in
-                   let '(f2, r2) := flush_marked f1 r in (f2, (k, g1) :: r2)
+  | (k, g) :: r => let '(f1, g1) := if attached_in k hg then write_back file g
+                                    else (file, set_first_attach g false) in
+                   let '(f2, r2) := lone_visits hg f1 r in (f2, (k, g1) :: r2)
   end.
 (** Load_vfile: every DFTAG_VG element is unpacked and inserted under its ref *)
 Fixpoint load_vfile (file : list (Z * bytes)) : option (list (Z * VGROUP)) :=
@@ -316,30 +333,33 @@ Definition getvgroups_result (users : list Z) (start n : Z) : option (list Z) :=
 
 (* ---- one operation ----------------------------------------------------------------------------------- *)
 Definition mok (s : mstate) (v : list Z) : mstate * res := (s, ROk v None).
-Definition m_with (s : mstate) (h : Z) (f : Z -> bool -> VGROUP -> mstate * res) : mstate * res :=
+Definition m_with (s : mstate) (h : Z) (f : Z -> VGROUP -> mstate * res) : mstate * res :=
   match tget h (m_hg s) with
   | None => (s, RUnspec)
-  | Some (r, w) => match tget r (m_vg s) with None => (s, RUnspec) | Some g => f r w g end
+  | Some r => match tget r (m_vg s) with None => (s, RUnspec) | Some g => f r g end
   end.
+(** every edit checks vg->access == 'w' *)
 Definition m_edit (s : mstate) (h : Z) (f : Z -> VGROUP -> mstate * res) : mstate * res :=
-  m_with s h (fun r w g => if w then f r g else (s, RUnspec)).
+  m_with s h (fun r g => if access g then f r g else (s, RFail)).
 Definition m_put (s : mstate) (r : Z) (g : VGROUP) : mstate :=
   mkm (m_file s) (tset r g (m_vg s)) (m_vs s) (m_hg s) (m_hs s).
-Definition m_attached (r : Z) (s : mstate) : bool := existsb (fun e => fst (snd e) =? r) (m_hg s).
-Definition m_vs_attached (r : Z) (s : mstate) : bool := existsb (fun e => snd e =? r) (m_hs s).
+Definition m_attached (r : Z) (s : mstate) : bool := attached_in r (m_hg s).        (* nattach > 0 *)
+Definition m_vs_attached (r : Z) (s : mstate) : bool := attached_in r (m_hs s).
 Definition m_room (g : VGROUP) (k : Z) : bool := nvelt g + k <=? 65535.
-Fixpoint addmany_loop (g : VGROUP) (t r step : Z) (n : nat) (last : Z) : VGROUP * Z :=
+Fixpoint addmany_loop (g : VGROUP) (t r step : Z) (n : nat) (last : Z) : option (VGROUP * Z) :=
   match n with
-  | O => (g, last)
-  | S n' => let '(g', k) := Vaddtagref g t r in addmany_loop g' t (r + step) step n' k
+  | O => Some (g, last)
+  | S n' => match Vaddtagref g t r with
+            | Some (g', k) => addmany_loop g' t (r + step) step n' k
+            | None => None
+            end
   end.
 Definition m_insert (s : mstate) (h : Z) (t r : Z) : mstate * res :=
   m_edit s h (fun vr g =>
-    if negb (m_room g 1) then (s, RUnspec)
-    else match Vinsert g t r with None => (s, RFail) | Some (g', i) => (m_put s vr g', ROk [i] None) end).
+    match Vinsert g t r with None => (s, RFail) | Some (g', i) => (m_put s vr g', ROk [i] None) end).
 Definition set_string (s : bytes) : option bytes := Some (cstr s).     (* malloc(strlen + 1); HIstrncpy *)
-Definition flush (s : mstate) : mstate :=
-  let '(f, t) := flush_marked (m_file s) (m_vg s) in mkm f t (m_vs s) (m_hg s) (m_hs s).
+Definition lone_side_effect (s : mstate) : mstate :=
+  let '(f, t) := lone_visits (m_hg s) (m_file s) (m_vg s) in mkm f t (m_vs s) (m_hg s) (m_hs s).
 
 Definition mstep (s : mstate) (o : op) : mstate * res :=
   match o with
@@ -356,30 +376,37 @@ Definition mstep (s : mstate) (o : op) : mstate * res :=
       match tget h (m_hg s) with Some _ => (s, RUnspec) | None =>
         if negb ((1 <=? r) && (r <=? 65535)) then (s, RFail)
         else match tget r (m_vg s) with Some _ => (s, RFail) | None =>
-          (mkm (m_file s) (tins r (new_vgroup r) (m_vg s)) (m_vs s) (tins h (r, true) (m_hg s)) (m_hs s), ROk [r] None)
+          (mkm (m_file s) (tins r (new_vgroup r) (m_vg s)) (m_vs s) (tins h r (m_hg s)) (m_hs s), ROk [r] None)
         end end
   | OVgAttach h r w =>
       match tget h (m_hg s) with Some _ => (s, RUnspec) | None =>
-        match tget r (m_vg s) with None => (s, RFail) | Some _ =>
-          (mkm (m_file s) (m_vg s) (m_vs s) (tins h (r, w) (m_hg s)) (m_hs s), ROk [] None) end end
+        match tget r (m_vg s) with None => (s, RFail) | Some g =>
+          let g' := if m_attached r s then set_access g (access g || w)      (* nattach > 0: MAX(access, mode) *)
+                    else set_first_attach g w in
+          (mkm (m_file s) (tset r g' (m_vg s)) (m_vs s) (tins h r (m_hg s)) (m_hs s), ROk [] None) end end
   | OVgDetach h =>
-      match tget h (m_hg s) with None => (s, RFail) | Some (r, _) =>
+      match tget h (m_hg s) with None => (s, RFail) | Some r =>
         match tget r (m_vg s) with None => (s, RUnspec) | Some g =>
           let '(f, g') := write_back (m_file s) g in
           (mkm f (tset r g' (m_vg s)) (m_vs s) (tdel h (m_hg s)) (m_hs s), ROk [] None) end end
   | OSetName h n => m_edit s h (fun r g =>
-      if name_ok n then (m_put s r (set_name g (set_string n)), ROk [] None) else (s, RUnspec))
+      if negb (name_ok n) then (s, RUnspec)
+      else if 65535 <? zlen (cstr n) then (s, RFail)                         (* name_len > UINT16_MAX *)
+      else (m_put s r (set_name g (set_string n)), ROk [] None))
   | OSetClass h n => m_edit s h (fun r g =>
-      if name_ok n then (m_put s r (set_class g (set_string n)), ROk [] None) else (s, RUnspec))
+      if negb (name_ok n) then (s, RUnspec)
+      else if 65535 <? zlen (cstr n) then (s, RFail)
+      else (m_put s r (set_class g (set_string n)), ROk [] None))
   | OAddTagRef h t r => m_edit s h (fun vr g =>
-      if u16 t && u16 r && m_room g 1
-      then let '(g', n) := Vaddtagref g t r in (m_put s vr g', ROk [n] None) else (s, RUnspec))
+      if negb (u16 t && u16 r) then (s, RUnspec)
+      else match Vaddtagref g t r with Some (g', n) => (m_put s vr g', ROk [n] None) | None => (s, RFail) end)
   | OAddMany h t r c st => m_edit s h (fun vr g =>
       if u16 t && u16 r && u16 (r + (c - 1) * st) && (1 <=? c) && m_room g c
-      then let '(g', n) := addmany_loop g t r st (Z.to_nat c) (-1) in (m_put s vr g', ROk [n] None)
+      then match addmany_loop g t r st (Z.to_nat c) (-1) with
+           | Some (g', n) => (m_put s vr g', ROk [n] None) | None => (s, RUnspec) end
       else (s, RUnspec))
   | OInsertVg h h2 =>
-      match tget h2 (m_hg s) with None => (s, RUnspec) | Some (r2, _) => m_insert s h DFTAG_VG r2 end
+      match tget h2 (m_hg s) with None => (s, RUnspec) | Some r2 => m_insert s h DFTAG_VG r2 end
   | OInsertVs h h2 =>
       match tget h2 (m_hs s) with None => (s, RUnspec) | Some r2 => m_insert s h DFTAG_VH r2 end
   | ODelTagRef h t r => m_edit s h (fun vr g =>
@@ -412,24 +439,24 @@ Definition mstep (s : mstate) (o : op) : mstate * res :=
   | OVsDetach h =>
       match tget h (m_hs s) with None => (s, RFail) | Some _ =>
         (mkm (m_file s) (m_vg s) (m_vs s) (m_hg s) (tdel h (m_hs s)), ROk [] None) end
-  | ONTagRefs h => m_with s h (fun _ _ g => mok s [nvelt g])
-  | OGetTagRefs h n => m_with s h (fun _ _ g =>
+  | ONTagRefs h => m_with s h (fun _ g => mok s [nvelt g])
+  | OGetTagRefs h n => m_with s h (fun _ g =>
       if n <? 0 then (s, RUnspec) else let l := Vgettagrefs g n in mok s (zlen l :: flat l))
-  | OGetTagRef h i => m_with s h (fun _ _ g =>
+  | OGetTagRef h i => m_with s h (fun _ g =>
       match Vgettagref g i with Some (t, r) => mok s [t; r] | None => (s, RFail) end)
-  | OInqTagRef h t r => m_with s h (fun _ _ g =>
+  | OInqTagRef h t r => m_with s h (fun _ g =>
       if u16 t && u16 r then mok s [if Vinqtagref g t r then 1 else 0] else (s, RUnspec))
-  | ONRefs h t => m_with s h (fun _ _ g => if u16 t then mok s [Vnrefs g t] else (s, RUnspec))
-  | OGetName h => m_with s h (fun _ _ g => (s, ROk [] (Some (cstr (opt_bytes (vgname g))))))
-  | OGetClass h => m_with s h (fun _ _ g => (s, ROk [] (Some (cstr (opt_bytes (vgclass g))))))
-  | OInquire h => m_with s h (fun _ _ g => (s, ROk [nvelt g] (Some (cstr (opt_bytes (vgname g))))))
-  | OQueryRef h => m_with s h (fun _ _ g => mok s [oref g])
-  | OIsVg h id => m_with s h (fun _ _ g => if u16 id then mok s [if Visvg g id then 1 else 0] else (s, RUnspec))
-  | OIsVs h id => m_with s h (fun _ _ g => if u16 id then mok s [if Visvs g id then 1 else 0] else (s, RUnspec))
+  | ONRefs h t => m_with s h (fun _ g => if u16 t then mok s [Vnrefs g t] else (s, RUnspec))
+  | OGetName h => m_with s h (fun _ g => (s, ROk [] (Some (cstr (opt_bytes (vgname g))))))
+  | OGetClass h => m_with s h (fun _ g => (s, ROk [] (Some (cstr (opt_bytes (vgclass g))))))
+  | OInquire h => m_with s h (fun _ g => (s, ROk [nvelt g] (Some (cstr (opt_bytes (vgname g))))))
+  | OQueryRef h => m_with s h (fun _ g => mok s [oref g])
+  | OIsVg h id => m_with s h (fun _ g => if u16 id then mok s [if Visvg g id then 1 else 0] else (s, RUnspec))
+  | OIsVs h id => m_with s h (fun _ g => if u16 id then mok s [if Visvs g id then 1 else 0] else (s, RUnspec))
   | OLone n => if n <? 0 then (s, RUnspec)
-               else let l := Vlone s in (flush s, ROk (zlen l :: firstn (Z.to_nat n) l) None)
+               else let l := Vlone s in (lone_side_effect s, ROk (zlen l :: firstn (Z.to_nat n) l) None)
   | OVSLone n => if n <? 0 then (s, RUnspec)
-                 else let l := VSlone s in (flush s, ROk (zlen l :: firstn (Z.to_nat n) l) None)
+                 else let l := VSlone s in (lone_side_effect s, ROk (zlen l :: firstn (Z.to_nat n) l) None)
   | OGetId r => match m_getid (m_vg s) r with Some k => mok s [k] | None => (s, RFail) end
   | OVSGetId r => match m_getid (m_vs s) r with Some k => mok s [k] | None => (s, RFail) end
   | OIter => mok s (all_ids (m_vg s))
@@ -447,7 +474,7 @@ Definition mstep (s : mstate) (o : op) : mstate * res :=
       else let users := filter (fun id => match tget id (m_vg s) with Some g => user_created g | None => false end)
                                (all_ids (m_vg s)) in
            match getvgroups_result users start n with None => (s, RFail) | Some l => mok s (zlen l :: l) end
-  | OGetVgroupsG h start n => m_with s h (fun _ _ g =>
+  | OGetVgroupsG h start n => m_with s h (fun _ g =>
       if (start <? 0) || (n <? 1) then (s, RUnspec)
       else let users := flat_map (fun i => if aget (tag g) i =? DFTAG_VG
                                            then match tget (aget (ref g) i) (m_vg s) with
@@ -455,8 +482,8 @@ Definition mstep (s : mstate) (o : op) : mstate * res :=
                                                 | None => [] end
                                            else []) (idx g) in
            match getvgroups_result users start n with None => (s, RFail) | Some l => mok s (zlen l :: l) end)
-  | OGetNext h id => m_with s h (fun _ _ g => match Vgetnext g id with Some k => mok s [k] | None => (s, RFail) end)
-  | OMsize h => m_with s h (fun _ _ g => mok s [nvelt g; msize g])
+  | OGetNext h id => m_with s h (fun _ g => match Vgetnext g id with Some k => mok s [k] | None => (s, RFail) end)
+  | OMsize h => m_with s h (fun _ g => mok s [nvelt g; msize g])
   | ORawVg r => match tget r (m_file s) with Some b => (s, ROk [] (Some b)) | None => (s, RFail) end
   | OPutRaw r b => if u16 r then (mkm (tput r b (m_file s)) (m_vg s) (m_vs s) (m_hg s) (m_hs s), ROk [] None)
                    else (s, RUnspec)
